@@ -11,10 +11,10 @@ QUICK_S = 45
 THOROUGH_S = 480
 CHUNK = 40
 REAL_COMPONENTS = ['pysmi.compiler.MibCompiler.compile', 'parser (SmiV1Compat dialect)', 'SymtableCodeGen', 'JsonCodeGen (about 4% of worlds: PySnmpCodeGen)',
-                   'pysmi.borrower.AnyFileBorrower (flavour test)', 'pysmi.searcher.StubSearcher (share of worlds)']
+                   'pysmi.borrower.AnyFileBorrower (flavour test)', 'pysmi.searcher.StubSearcher (share of worlds)', 'real-filesystem worlds (about 15 %): FileReader (plain, with .index), ZipReader, HttpReader (behind a simulated web server), AnyFileSearcher, StubSearcher, AnyFileBorrower, FileWriter - tapped in place', 'CallbackReader sources sharing one look-up function and real StubSearcher objects in a share of the simulated worlds']
 STUB_COMPONENTS = ['sources (outcome table: ok / defective copy / not found / reader error)', 'file-like and stub-like searchers (answer table)',
                    'borrower readers (answer table)', 'writer (records hand-overs, may fail with the package error)',
-                   'injected package errors at the k-th call of any component tap']
+                   'injected package errors at the k-th call of any component tap', 'web server + network of HTTP sources (simulated at urlopen: refuse / 404 / 500 / cut body / no Last-Modified)', 'errno and short-write outcomes of os.* calls in real-filesystem worlds (seeded rate)']
 RULE = ('seeded worlds: 1-6 generated modules (import graphs with cycles, self imports, several modules per file, defective variants), 1-3 sources, '
         '0-3 searchers, 0-3 borrowers, option subsets, injected package errors; distinct = distinct (status multiset, options, fault kinds fired, '
         'component counts); non-trivial = a fault fired or >= 2 generated modules')
